@@ -373,6 +373,17 @@ pub fn read_all_sched<R: std::io::Read>(r: &mut R, sched: &[usize], cap: usize) 
             continue;
         }
         if got == 0 {
+            // end of stream is sticky: reading again must neither deliver data, nor fail, nor touch the source
+            // (the callers compare the source position afterwards)
+            for _ in 0..2 {
+                let mut extra = [0u8; 13];
+                match r.read(&mut extra) {
+                    Ok(0) => {}
+                    Ok(k) => return Err(std::io::Error::other(format!("read-after-eof: {k} more bytes after the reader had reported the end of the stream"))),
+                    Err(e) if e.kind() == std::io::ErrorKind::Interrupted => {}
+                    Err(e) => return Err(std::io::Error::other(format!("read-after-eof: error after the reader had reported the end of the stream: {e}"))),
+                }
+            }
             return Ok(out);
         }
         out.extend_from_slice(&buf[..got]);
